@@ -2,7 +2,10 @@ package main
 
 import (
 	"fmt"
+	"go/token"
 	"go/types"
+	"sort"
+	"strings"
 )
 
 // heapWindow is a range of cells [lo, hi) of one byte region.
@@ -75,4 +78,132 @@ func promotedPath(t types.Type, name string) []string {
 		}
 	}
 	return []string{name}
+}
+
+// zeroOffsets assumes offset 0 for the byte slices and strings reachable from an entry value.
+func (fc *FnCtx) zeroOffsets(st *State, v Val, depth int) {
+	if depth > 6 {
+		return
+	}
+	switch x := v.(type) {
+	case VSlice:
+		if isByteElem(x.Elem) {
+			fc.axiom(eq(x.Off, mkInt(0)))
+		}
+	case VStr:
+		fc.axiom(eq(x.Off, mkInt(0)))
+	case VPtr:
+		if x.Obj >= 0 {
+			if tv, ok := st.objs[x.Obj]; ok {
+				fc.zeroOffsets(st, tv, depth+1)
+			}
+		}
+	case VStruct:
+		for _, k := range sortedKeys(x.F) {
+			fc.zeroOffsets(st, x.F[k], depth+1)
+		}
+	}
+}
+
+// ---------------------------------------------------------------------------
+// frame as local effect obligations
+//
+// Instead of one quantified "nothing else changed" obligation at every return, each heap write is checked where
+// it happens: the cells written must lie in a backing array allocated during the call, or inside what the
+// contract lists under `modifies` (the capacity window of a slice parameter, any array reachable from a pointer
+// parameter under the default contract, or a listed slice field). The heap is only ever changed through these
+// operations, so cells outside them keep their entry value by construction.
+
+type frameAllow struct {
+	set    bool
+	all    bool
+	whole  []T
+	wins   []heapWindow
+	nextR0 T
+}
+
+// initFrame computes what the function under verification may write (called once, at entry).
+func (fc *FnCtx) initFrame(st *State) {
+	fa := &fc.frame
+	fa.set = true
+	fa.nextR0 = st.nextR
+	ct := fc.contract
+	if ct == nil || ct.ModAll || fc.lenient {
+		fa.all = true
+		return
+	}
+	modPaths := map[string]bool{}
+	for _, m := range ct.Modifies {
+		modPaths[m.String()] = true
+	}
+	covered := func(path string) bool {
+		for m := range modPaths {
+			if path == m || strings.HasPrefix(path, m+".") {
+				return true
+			}
+		}
+		return false
+	}
+	explicit := len(ct.Modifies) > 0 || ct.Pure
+	var walk func(path string, v Val, inMod bool)
+	walk = func(path string, v Val, inMod bool) {
+		inMod = inMod || covered(path)
+		switch x := v.(type) {
+		case VSlice:
+			if inMod && isByteElem(x.Elem) {
+				if !strings.Contains(path, ".") {
+					fa.wins = append(fa.wins, heapWindow{x.Rgn, x.Off, add(x.Off, x.Cap)})
+				} else {
+					fa.whole = append(fa.whole, x.Rgn)
+				}
+			}
+		case VPtr:
+			if x.Obj >= 0 {
+				if tv, ok := st.objs[x.Obj]; ok {
+					walk(path, tv, inMod || !explicit)
+				}
+			}
+		case VStruct:
+			for _, k := range sortedKeys(x.F) {
+				walk(path+"."+k, x.F[k], inMod)
+			}
+		}
+	}
+	names := make([]string, 0, len(fc.entryVars))
+	for n := range fc.entryVars {
+		names = append(names, n)
+	}
+	sort.Strings(names)
+	for _, n := range names {
+		walk(n, fc.entryVars[n], false)
+	}
+}
+
+// frameWrite asserts that writing cells [lo,hi) of region rgn (under guard) is permitted by the contract.
+func (fc *FnCtx) frameWrite(st *State, guard, rgn, lo, hi T, p token.Pos, what string) {
+	fa := &fc.frame
+	if !fa.set || fa.all || !fc.safetyActive() {
+		return
+	}
+	alts := []T{ge(rgn, fa.nextR0), le(hi, lo)}
+	for _, w := range fa.whole {
+		alts = append(alts, eq(rgn, w))
+	}
+	for _, w := range fa.wins {
+		alts = append(alts, and(eq(rgn, w.rgn), le(w.lo, lo), le(hi, w.hi)))
+	}
+	fc.assert(st, "frame", "frame["+what+"]", implies(guard, or(alts...)), p, "writes stay inside what the contract lists under modifies")
+}
+
+// frameWriteRegion: a whole region may be written (call-site havoc of a region).
+func (fc *FnCtx) frameWriteRegion(st *State, rgn T, p token.Pos, what string) {
+	fa := &fc.frame
+	if !fa.set || fa.all || !fc.safetyActive() {
+		return
+	}
+	alts := []T{ge(rgn, fa.nextR0), eq(rgn, mkInt(0))}
+	for _, w := range fa.whole {
+		alts = append(alts, eq(rgn, w))
+	}
+	fc.assert(st, "frame", "frame["+what+"]", or(alts...), p, "writes stay inside what the contract lists under modifies")
 }
